@@ -365,8 +365,8 @@ def run(tier, seed):
                 'second clean restart and more events; final audit of all files. Clock advancing and frozen (equal timestamps). '
                 'distinct_nontrivial = distinct (threshold, history length, crash class, residue class, continuation length, second restart)'
                 % (hl, alpha, list(THRESHOLDS), cl),
-        'samples': [{'threshold': 'every-update', 'history': ['update_received', 'open_received'], 'crash_offset': 17,
-                     'continuation': ['update_received']}],
+        'samples': [{'threshold': t[0], 'history': list(t[1]), 'crash': 'clean and every byte offset of the last record',
+                     'continuations': [list(c) for c in report.pick(t[2], seed, 2)], 'clock_advances': t[4]} for t in report.pick(tasks, seed, 3)],
         'histories': len(hists), 'continuations': len(conts), 'shim_vs_real_directory_histories': nbind,
         'exhaustive': True, 'violation_keys': summary,
     }
